@@ -53,3 +53,8 @@ claim("C08",
       "For every distinct pool of C01-style histories (incl. gc'd authors, out-of-order deliveries) extended with the authors' full states and mutual diffs, EVERY ordered selection of <= 3 payloads (with repetition) is checked: merge vs one-by-one application (empty doc and author end states), every argument order and both nestings of the merge, diff_updates against the state vector of the prefix document, encode_state_vector_from_update, in v1 and v2 and v1-merge vs v2-merge. Two narrow known findings (transient differences while a gap is open) are reported as KNOWN-FINDING; anything surviving completion or occurring without a gap is a violation.",
       "effect = visible dump + state vector + has_missing_updates; authors run without formatting clean-up",
       "DESIGN.md 4/C08")
+claim("C15",
+      "bounded-exhaustive lock-step exploration of twin worlds that differ only in the gc assignment, forced gc as an action",
+      "Every history (ops with deletions, causal syncs, forced gc at every point) over txt/rtx/arr/map/nest/xml is executed in lock-step on an all-gc-off reference world and on one world per other gc assignment of the R replicas; after every step corresponding replicas must show equal content (covers gc<->non-gc sync in both directions and forced gc), and a document rebuilt from each gc'd replica's full state (v1/v2) must equal it. A second exploration runs a document with an UndoManager against a gc-off twin over {op, forced gc, undo, redo}: undo/redo after collection must restore the same content.",
+      "reference world never collects; state-matched on the internal dumps of all worlds",
+      "DESIGN.md 4/C15")
